@@ -60,3 +60,24 @@ Definition allow_list : list allow := [
   mkAllow "api/internal/plugins/loader" "(*Loader).loadGoPlugin" "api/internal/plugins/loader.registry[]" AMapWrite 0 goplugins;
   mkAllow "kyaml/fieldmeta" "SetShortHandRef" "kyaml/fieldmeta.shortHandRef" AWrite 0 shorthand
 ]%N.
+
+(* ---------- package-level objects that are initialised once but whose reference is used by calls ---------- *)
+(* A `var x = sha256.New()`-style object is written only by the initialiser, yet mutated through its methods: the
+   translator lists every package-level variable of reference type (pointer / interface / map / slice / func) whose
+   value is passed to a call or has a method called on it outside initialisers (GRefUsed). Each must be excused here,
+   by type or by name, with the reason why sharing it between concurrent builds is harmless. *)
+Definition ref_type_allow : list (string * string) := [
+  ("*regexp.Regexp", "a compiled Regexp is safe for concurrent use by multiple goroutines (package regexp documentation)");
+  ("error", "sentinel error values: only returned and compared, never written through")
+].
+
+Definition ref_var_allow : list (string * string) := [
+  ("api/internal/builtins.defaultOrderFirst", "legacy sort order table: copied / ranged by the sort-order plugin, never appended to or sorted in place");
+  ("api/internal/builtins.defaultOrderLast", "legacy sort order table: as defaultOrderFirst");
+  ("api/kv.utf8bom", "byte-order-mark constant passed to bytes.TrimPrefix (read-only)");
+  ("kyaml/kio.DefaultMatch", "glob list assigned to reader fields and ranged; never modified");
+  ("kyaml/kio.MatchAll", "glob list assigned to reader fields and ranged; never modified");
+  ("kyaml/openapi/kubernetesapi/v1_21_2._kubernetesapiV1_21_2SwaggerPb", "embedded asset bytes handed to the gzip reader (read-only)");
+  ("kyaml/openapi/kustomizationapi._kustomizationapiSwaggerJson", "embedded asset bytes handed to the gzip reader (read-only)");
+  ("kyaml/yaml/walk.ClearNode", "sentinel *RNode compared by pointer and returned to signal 'clear'; the walker never writes through it")
+].
